@@ -45,3 +45,42 @@ Definition local_look (l : look) : bool :=
   | _ => false
   end.
 Definition local_looks (h : hir) : bool := negb (has_look (fun l => negb (local_look l)) h).
+
+(* ---- RegexMatcher::find_candidate_line (crates/regex/src/matcher.rs) ----
+   With a fast line regex (the alternation of the inner literals) it answers Candidate(end of the
+   leftmost occurrence of a literal; among literals starting there, the first in list order);
+   without one it answers Confirmed(end of the match the regex engine finds).  The literal search
+   is modelled executably; the regex engine's choice of a match is the parameter [span]
+   (regex-automata's leftmost-first search is not modelled: what is assumed of it is stated where
+   it is used, Proofs/RegexCandProofs.v [span_ok]). *)
+Fixpoint first_prefix (lits : list bytes) (t : bytes) : option nat :=
+  match lits with
+  | [] => None
+  | l :: r => if is_prefix_of l t then Some (length l) else first_prefix r t
+  end.
+
+Fixpoint find_lit (lits : list bytes) (t : bytes) : option nat :=
+  match first_prefix lits t with
+  | Some n => Some n
+  | None => match t with [] => None | _ :: r => option_map S (find_lit lits r) end
+  end.
+
+Definition regex_find_candidate (lits : option (list bytes)) (span : bytes -> option (nat * nat))
+           (hay : bytes) : option (bool * nat) :=
+  match lits with
+  | Some ls => option_map (fun e => (false, e)) (find_lit ls hay)
+  | None => option_map (fun sp => (true, snd sp)) (span hay)
+  end.
+
+(* the RegexMatcher built by build_many, with its fast line literals *)
+Definition regex_line_matcher (final : hir) (adv : option rterm) (lits : option (list bytes))
+           (span : bytes -> option (nat * nat)) (find_at : bytes -> nat -> option (nat * nat)) : matcher :=
+  regex_matcher final adv (regex_find_candidate lits span) find_at.
+
+(* a span function that meets [span_ok]: the leftmost start that has a match, with one of its ends
+   (used for non-vacuity; the real engine's choice among the ends is irrelevant to the line) *)
+Definition sem_span (h : hir) (hay : bytes) : option (nat * nat) :=
+  match find (fun i => match ends h hay i with [] => false | _ => true end) (seq 0 (S (length hay))) with
+  | Some i => match ends h hay i with j :: _ => Some (i, j) | [] => None end
+  | None => None
+  end.
